@@ -38,182 +38,7 @@ pub fn from_address(a: &Address) -> Addr {
     }
 }
 
-#[derive(Clone, Copy, Debug, PartialEq, Eq, Hash)]
-pub enum Proto {
-    Ss(Method),
-    /// security byte (3 = aes-128-gcm, 4 = chacha20-poly1305)
-    Vmess(u8),
-    Trojan,
-}
-
-impl Proto {
-    pub fn name(&self) -> String {
-        match self {
-            Proto::Ss(m) => format!("shadowsocks/{}", m.name()),
-            Proto::Vmess(3) => "vmess/aes-128-gcm".into(),
-            Proto::Vmess(_) => "vmess/chacha20-poly1305".into(),
-            Proto::Trojan => "trojan".into(),
-        }
-    }
-    pub fn encrypted(&self) -> bool {
-        !matches!(self, Proto::Trojan)
-    }
-}
-
-pub fn all_protos() -> Vec<Proto> {
-    let mut v: Vec<Proto> = refimpl::ss::ALL_METHODS.iter().map(|m| Proto::Ss(*m)).collect();
-    v.push(Proto::Vmess(3));
-    v.push(Proto::Vmess(4));
-    v.push(Proto::Trojan);
-    v
-}
-
-/// Credentials of one deployment (server + the client that talks to it).
-#[derive(Clone, Debug)]
-pub struct Cfg {
-    pub proto: Proto,
-    /// SS legacy: the textual password. SS 2022: unused.
-    pub password: String,
-    /// SS 2022: the server's own key (PSK; acts as iPSK when `users` is non-empty)
-    pub server_psk: Vec<u8>,
-    /// SS 2022 user table (name, uPSK)
-    pub users: Vec<(String, Vec<u8>)>,
-    /// which user the client is (index into `users`); None = single-user mode
-    pub client_user: Option<usize>,
-    /// VMess: UUID strings registered at the server, and the index the client uses
-    pub uuids: Vec<String>,
-    pub client_uuid: usize,
-    /// SS 2022 (SIP023): identity keys of relays the client's request passes BEFORE it reaches this server
-    /// (the client's password is chain[0]:chain[1]:...:server key:user key); empty in every ordinary deployment
-    pub chain: Vec<Vec<u8>>,
-}
-
-pub fn uuid_string(b: &[u8; 16]) -> String {
-    let h = crate::report::hex(b);
-    format!("{}-{}-{}-{}-{}", &h[0..8], &h[8..12], &h[12..16], &h[16..20], &h[20..32])
-}
-
-impl Cfg {
-    pub fn random(rng: &mut Rng, proto: Proto, n_users: usize) -> Cfg {
-        let mut c = Cfg { proto, password: String::new(), server_psk: vec![], users: vec![], client_user: None, uuids: vec![], client_uuid: 0, chain: vec![] };
-        match proto {
-            Proto::Ss(m) => {
-                if m.is_2022() {
-                    c.server_psk = rng.bytes(m.key_len());
-                    if m.supports_eih() && n_users > 0 {
-                        for i in 0..n_users {
-                            c.users.push((format!("user{i}"), rng.bytes(m.key_len())));
-                        }
-                        c.client_user = Some(rng.below(n_users as u64) as usize);
-                    }
-                } else {
-                    c.password = random_password(rng);
-                }
-            }
-            Proto::Vmess(_) => {
-                for _ in 0..n_users.max(1) {
-                    c.uuids.push(uuid_string(&rng.arr::<16>()));
-                }
-                c.client_uuid = rng.below(c.uuids.len() as u64) as usize;
-            }
-            Proto::Trojan => c.password = random_password(rng),
-        }
-        c
-    }
-
-    pub fn method(&self) -> Option<Method> {
-        if let Proto::Ss(m) = self.proto {
-            Some(m)
-        } else {
-            None
-        }
-    }
-
-    /// Keys as the reference implementation wants them for the *client*.
-    pub fn ref_client_keys(&self) -> refimpl::ss::Keys {
-        let m = self.method().expect("ss");
-        if m.is_2022() {
-            match self.client_user {
-                Some(i) => refimpl::ss::Keys { psk: self.users[i].1.clone(), ipsks: self.chain.iter().cloned().chain([self.server_psk.clone()]).collect() },
-                None => refimpl::ss::Keys { psk: self.server_psk.clone(), ipsks: vec![] },
-            }
-        } else {
-            refimpl::ss::keys_from_password(m, &self.password).unwrap()
-        }
-    }
-    pub fn ref_server_psk(&self) -> Vec<u8> {
-        let m = self.method().expect("ss");
-        if m.is_2022() {
-            self.server_psk.clone()
-        } else {
-            refimpl::crypto::evp_bytes_to_key(self.password.as_bytes(), m.key_len())
-        }
-    }
-    pub fn ref_users(&self) -> Vec<refimpl::ss::S22User> {
-        self.users.iter().map(|(n, k)| refimpl::ss::S22User { name: n.clone(), upsk: k.clone() }).collect()
-    }
-    pub fn ref_cmd_keys(&self) -> Vec<[u8; 16]> {
-        self.uuids.iter().map(|u| refimpl::crypto::vmess_cmd_key(&refimpl::crypto::parse_uuid(u).unwrap())).collect()
-    }
-
-    /// "password" field of the client's config entry.
-    pub fn client_password(&self) -> String {
-        match self.proto {
-            Proto::Ss(m) if m.is_2022() => match self.client_user {
-                Some(i) => self.chain.iter().map(|k| b64_encode(k)).chain([b64_encode(&self.server_psk), b64_encode(&self.users[i].1)]).collect::<Vec<_>>().join(":"),
-                None => b64_encode(&self.server_psk),
-            },
-            Proto::Vmess(_) => self.uuids[self.client_uuid].clone(),
-            _ => self.password.clone(),
-        }
-    }
-    /// "password" field of the server's config entry.
-    pub fn server_password(&self) -> String {
-        match self.proto {
-            Proto::Ss(m) if m.is_2022() => b64_encode(&self.server_psk),
-            Proto::Vmess(_) => self.uuids[0].clone(),
-            _ => self.password.clone(),
-        }
-    }
-    pub fn cipher_name(&self) -> &'static str {
-        match self.proto {
-            Proto::Ss(m) => m.name(),
-            Proto::Vmess(4) => "chacha20-poly1305",
-            Proto::Vmess(_) => "aes-128-gcm",
-            Proto::Trojan => "aes-128-gcm",
-        }
-    }
-    pub fn protocol_name(&self) -> &'static str {
-        match self.proto {
-            Proto::Ss(_) => "shadowsocks",
-            Proto::Vmess(_) => "vmess",
-            Proto::Trojan => "trojan",
-        }
-    }
-    pub fn server_users_json(&self) -> Value {
-        match self.proto {
-            Proto::Ss(_) => Value::Array(self.users.iter().map(|(n, k)| json!({"name": n, "password": b64_encode(k)})).collect()),
-            Proto::Vmess(_) => Value::Array(self.uuids.iter().enumerate().map(|(i, u)| json!({"name": format!("u{i}"), "password": u})).collect()),
-            Proto::Trojan => json!([]),
-        }
-    }
-    /// One entry of the client's `servers` array / the server's config array (transport sections added by callers).
-    pub fn client_entry(&self, host: &str, port: u16) -> Value {
-        json!({"host": host, "port": port, "password": self.client_password(), "protocol": self.protocol_name(), "cipher": self.cipher_name()})
-    }
-    pub fn server_entry(&self, host: &str, port: u16, mode: &str) -> Value {
-        json!({"host": host, "port": port, "mode": mode, "password": self.server_password(), "protocol": self.protocol_name(), "cipher": self.cipher_name(), "user": self.server_users_json()})
-    }
-    pub fn describe(&self) -> Value {
-        json!({"proto": self.proto.name(), "users": self.users.len().max(self.uuids.len()), "client_user": self.client_user, "client_password": self.client_password(), "server_password": self.server_password(), "server_users": self.server_users_json()})
-    }
-}
-
-pub fn random_password(rng: &mut Rng) -> String {
-    let n = *rng.pick(&[1usize, 3, 8, 8, 16, 24, 64, 200]);
-    let alphabet: Vec<char> = "abcdefghijklmnopqrstuvwxyzABCDEFGHIJKLMNOPQRSTUVWXYZ0123456789-_!@#%^&*é世".chars().collect();
-    (0..n).map(|_| *rng.pick(&alphabet)).collect()
-}
+pub use crate::cfg::*;
 
 fn client_cfg(c: &Cfg) -> Result<ServerConfig<cv::SslConfig>> {
     Ok(serde_json::from_value(c.client_entry("127.0.0.1", 1))?)
